@@ -66,6 +66,9 @@ func (def *sliceAsList) getKey(item reflect.Value, m meta.Meta, keyMeta []meta.L
 		if err != nil {
 			return nil, nil, fmt.Errorf("%w when get key", err)
 		}
+		if hnd.Val == nil {
+			return nil, nil, fmt.Errorf("list item has no value for key %s", kmeta.Ident())
+		}
 		nvKey[i] = hnd.Val
 		switch x := ref2.(type) {
 		case *Node:
